@@ -51,6 +51,15 @@ of the rewrites below is unsound.  Rewrites (each applied to BOTH sides):
   R29 an if-chain that binds a local to a literal in every arm (else included), followed by statements that are the
       only readers of that local: the following statements are copied into each arm with the literal substituted
       (tail duplication), then literal comparisons are folded and `if True/False` pruned
+  R30 negations pushed inward (not (a < b) -> a >= b, De Morgan on side-effect-free operands, `not x is None` forms);
+      `if c: A else: B` is oriented so that the smaller of (c, not c) in a fixed structural order is the test
+  R31 `if c: B(ends in return/raise/continue/break) [else: E]` followed by the rest R of its block -> `if c: B else: E; R`;
+      a trailing `continue` in tail position of a loop body and a trailing bare `return` of a function are dropped
+  R32 adjacent ifs with the same side-effect-free test, the first of which does not write what the test reads, are merged
+  R33 a simple statement with one conditional expression `X if c else Y` (c and every other operand side-effect free)
+      -> `if c: stmt[X] else: stmt[Y]`
+  R34 a module-level name that the reviewed module does not have, bound once to a literal or to struct.Struct(<literal>),
+      is replaced by its value (S.pack(a) -> struct.pack(fmt, a), S.unpack likewise, S.size -> calcsize(fmt))
   R14 `if a: X` directly followed by `if b: X` where X ends in continue / break / return / raise, and
       `if a: X elif b: X`:  ->  `if a or b: X`
 
@@ -547,6 +556,51 @@ class _PruneConst(ast.NodeTransformer):
         return out
 
 
+_NEG = {ast.Lt: ast.GtE, ast.LtE: ast.Gt, ast.Gt: ast.LtE, ast.GtE: ast.Lt, ast.Eq: ast.NotEq, ast.NotEq: ast.Eq,
+        ast.Is: ast.IsNot, ast.IsNot: ast.Is, ast.In: ast.NotIn, ast.NotIn: ast.In}
+
+
+def negate(e):
+    """Logical negation in negation normal form (operands must be side-effect free for De Morgan to be used)."""
+    if isinstance(e, ast.UnaryOp) and isinstance(e.op, ast.Not):
+        return e.operand
+    if isinstance(e, ast.Compare) and len(e.ops) == 1 and type(e.ops[0]) in _NEG:
+        return ast.Compare(left=e.left, ops=[_NEG[type(e.ops[0])]()], comparators=e.comparators)
+    if isinstance(e, ast.BoolOp) and all(is_pure(v) for v in e.values):
+        return ast.BoolOp(op=ast.Or() if isinstance(e.op, ast.And) else ast.And(), values=[negate(v) for v in e.values])
+    if isinstance(e, ast.Constant) and isinstance(e.value, bool):
+        return ast.Constant(not e.value)
+    return ast.UnaryOp(op=ast.Not(), operand=e)
+
+
+class _NNF(ast.NodeTransformer):
+    def visit_UnaryOp(self, n):
+        self.generic_visit(n)
+        if isinstance(n.op, ast.Not):
+            r = negate(n.operand)
+            if not (isinstance(r, ast.UnaryOp) and isinstance(r.op, ast.Not)):
+                return self.visit(r) if isinstance(r, ast.BoolOp) else r
+        return n
+
+    def visit_If(self, n):
+        self.generic_visit(n)
+        if not (len(n.orelse) == 1 and isinstance(n.orelse[0], ast.If)) and is_pure(n.test):
+            # two-way choice: orient by a fixed structural order of the test and its negation
+            neg = _Fold().visit(negate(copy.deepcopy(n.test)))
+            neg = _NNF().visit(neg) if isinstance(neg, ast.BoolOp) else neg
+            if _masked_dump(neg) + ast.dump(neg) < _masked_dump(n.test) + ast.dump(n.test):
+                n.test, n.body, n.orelse = neg, (n.orelse or [ast.Pass()]), n.body
+        return n
+
+    def visit_IfExp(self, n):
+        self.generic_visit(n)
+        if is_pure(n.test):
+            neg = _Fold().visit(negate(copy.deepcopy(n.test)))
+            if _masked_dump(neg) + ast.dump(neg) < _masked_dump(n.test) + ast.dump(n.test):
+                n.test, n.body, n.orelse = neg, n.orelse, n.body
+        return n
+
+
 def _index_canon(e):
     """Canonical form of integer index arithmetic (R17)."""
     if isinstance(e, ast.Tuple):
@@ -626,7 +680,8 @@ def _literal_items(it, target):
 
     def bind(t, v, m):
         if isinstance(t, ast.Name):
-            if isinstance(v, ast.Constant) or (isinstance(v, ast.UnaryOp) and isinstance(v.operand, ast.Constant)):
+            if isinstance(v, ast.Constant) or (isinstance(v, ast.UnaryOp) and isinstance(v.operand, ast.Constant)) or \
+                    (is_pure(v) and not isinstance(v, (ast.Tuple, ast.List))):
                 m[t.id] = v
                 return True
             return False
@@ -686,19 +741,33 @@ class Normaliser:
             call, mode, tgt = s.value, 'expr', None
         elif isinstance(s, ast.Return) and isinstance(s.value, ast.Call):
             call, mode, tgt = s.value, 'return', None
+        elif isinstance(s, ast.Expr) and isinstance(s.value, ast.YieldFrom) and isinstance(s.value.value, ast.Call):
+            call, mode, tgt = s.value.value, 'yieldfrom', None
         else:
             return None
-        if not isinstance(call.func, ast.Name) or call.func.id not in self.funcs:
+        fname = self._callee_name(call.func)
+        if fname is None or fname not in self.funcs:
             return None
-        g = self.funcs[call.func.id]
+        g = self.funcs[fname]
+        is_method = fname.startswith('self.')
         a = g.args
         if a.vararg or a.kwarg or a.kwonlyargs or any(isinstance(x, ast.Starred) for x in call.args) or any(k.arg is None for k in call.keywords):
             return None
+        static = False
         for d in g.decorator_list:
             dn = dotted(d.func if isinstance(d, ast.Call) else d)
+            if dn == 'staticmethod' and is_method:
+                static = True
+                continue
             if dn.split('.')[-1] not in ('njit', 'jit'):
                 return None
         params = [x.arg for x in a.posonlyargs + a.args]
+        selfmap = {}
+        if is_method and not static:
+            if not params:
+                return None
+            selfmap = {params[0]: ast.Name(id='self', ctx=ast.Load())}
+            params = params[1:]
         if len(call.args) > len(params):
             return None
         m = dict(zip(params, call.args))
@@ -711,21 +780,32 @@ class Normaliser:
             m.setdefault(p_, d)
         if set(m) != set(params) or not all(is_pure(v) for v in m.values()):
             return None
-        inner = Normaliser({k: v for k, v in self.funcs.items() if k != g.name}, self.depth + 1, set() if self.directional else None)
+        m.update(selfmap)
+        inner = Normaliser({k: v for k, v in self.funcs.items() if k != fname}, self.depth + 1, set() if self.directional else None)
         gn = inner.function(g)
         body = gn.body
         gbound = _bound_in(gn)
-        if gbound & set(params):
-            return None                    # a parameter is rebound inside the helper
+        pre = []
+        for p_ in sorted(gbound & set(m)):
+            # a parameter that the helper rebinds becomes a local initialised from the argument
+            pre.append(ast.Assign(targets=[ast.Name(id=p_, ctx=ast.Store())], value=m.pop(p_)))
+        body = pre + body
         free = set()
         for st in body:
             free |= names_loaded(st)
-        free -= gbound | set(params)
+        free -= gbound | set(params) | set(selfmap)
         if free & self.caller_bound:
             return None                    # a global of the helper is shadowed by a local of the caller
+        has_yield = False
         for n in ast.walk(ast.Module(body=body, type_ignores=[])):
-            if isinstance(n, (ast.Yield, ast.YieldFrom, ast.Global, ast.Nonlocal, ast.FunctionDef, ast.AsyncFunctionDef, ast.ClassDef)):
+            if isinstance(n, (ast.Yield, ast.YieldFrom)):
+                has_yield = True
+            if isinstance(n, (ast.Global, ast.Nonlocal, ast.FunctionDef, ast.AsyncFunctionDef, ast.ClassDef)):
                 return None
+        if has_yield != (mode == 'yieldfrom'):
+            return None
+        if mode == 'yieldfrom' and any(isinstance(n, ast.Return) and n.value is not None for n in ast.walk(ast.Module(body=body, type_ignores=[]))):
+            return None
         Normaliser._fresh += 1
         tag = f'{g.name}__{Normaliser._fresh}__'
         ren = {nm: ast.Name(id=tag + nm, ctx=ast.Load()) for nm in gbound}
@@ -746,6 +826,8 @@ class Normaliser:
                 return [ast.Assign(targets=[copy.deepcopy(tgt)], value=e if e is not None else ast.Constant(None))]
             if mode == 'return':
                 return [ast.Return(value=e)]
+            if mode == 'yieldfrom':
+                return []
             return [] if e is None or is_pure(e) else [ast.Expr(value=e)]
 
         def has_return(stmts):
@@ -799,8 +881,15 @@ class Normaliser:
             return None
         if not returned:
             new = new + result(None)
-        self.inlined.add(g.name)
+        self.inlined.add(fname)
         return new
+
+    def _callee_name(self, f):
+        if isinstance(f, ast.Name):
+            return f.id
+        if isinstance(f, ast.Attribute) and isinstance(f.value, ast.Name) and f.value.id == 'self':
+            return 'self.' + f.attr
+        return None
 
     # --------------------------------------------------------------- blocks, bottom-up structural rewrites
     def block(self, stmts):
@@ -808,13 +897,68 @@ class Normaliser:
         out = []
         for s in stmts:
             out.extend(self.stmt(s))
-        out = self.split_elif_after_exit(out)
         out = self.expand_listcomp(out)
         out = self.sink_selector(out)
         if not self.directional:
+            out = self.expand_ifexp(out)
             out = self.defaults_to_ifelse(out)
+            out = self.exit_to_else(out)
             out = self.flatten_ifs(out)
             out = self.merge_ifs(out)
+            out = self.merge_same_test(out)
+        return out
+
+    def expand_ifexp(self, stmts):
+        out = []
+        for s in stmts:
+            if isinstance(s, (ast.Assign, ast.Expr, ast.AugAssign, ast.Return)):
+                ifexps = [n for n in ast.walk(s) if isinstance(n, ast.IfExp)]
+                if len(ifexps) == 1 and is_pure(ifexps[0].test) and not any(isinstance(n, (ast.Lambda, ast.ListComp, ast.GeneratorExp, ast.DictComp)) for n in ast.walk(s)):
+                    ie = ifexps[0]
+                    # everything evaluated before the conditional must be side-effect free: require all call arguments to be pure
+                    val = s.value if not isinstance(s, ast.Expr) else s.value
+                    okpure = True
+                    for n in ast.walk(s):
+                        if isinstance(n, ast.Call):
+                            for a_ in list(n.args) + [k.value for k in n.keywords]:
+                                if not is_pure(a_):
+                                    okpure = False
+                    tgt_ok = True
+                    if isinstance(s, ast.Assign):
+                        tgt_ok = all(is_pure(t) for t in s.targets)
+                    if okpure and tgt_ok:
+                        def variant(branch):
+                            c = copy.deepcopy(s)
+                            class _R(ast.NodeTransformer):
+                                def visit_IfExp(self_, n):
+                                    return copy.deepcopy(branch)
+                            return _R().visit(c)
+                        out.append(ast.If(test=ie.test, body=[variant(ie.body)], orelse=[variant(ie.orelse)]))
+                        continue
+            out.append(s)
+        return out
+
+    def exit_to_else(self, stmts):
+        out = list(stmts)
+        for i, s in enumerate(out):
+            if isinstance(s, ast.If) and s.body and isinstance(s.body[-1], (ast.Return, ast.Raise, ast.Continue, ast.Break)) and i < len(out) - 1:
+                rest = self.exit_to_else(out[i + 1:])
+                return out[:i] + [ast.If(test=s.test, body=s.body, orelse=self.exit_to_else(list(s.orelse) + rest))]
+        return out
+
+    def merge_same_test(self, stmts):
+        out = []
+        for s in stmts:
+            prev = out[-1] if out else None
+            if isinstance(s, ast.If) and isinstance(prev, ast.If) and is_pure(s.test) and ast.dump(s.test) == ast.dump(prev.test) \
+                    and not (prev.body and isinstance(prev.body[-1], (ast.Return, ast.Raise, ast.Continue, ast.Break))) \
+                    and not (prev.orelse and isinstance(prev.orelse[-1], (ast.Return, ast.Raise, ast.Continue, ast.Break))):
+                al = Aliases(ast.Module(body=[prev], type_ignores=[]))
+                ef = stmt_effects(prev, al)
+                if not (ef.rebinds & names_loaded(s.test)) and not (al.cls(heap_roots(s.test)) & ef.writes):
+                    out[-1] = ast.If(test=prev.test, body=list(prev.body) + list(s.body), orelse=list(prev.orelse) + list(s.orelse))
+                    continue
+            out.append(s)
         return out
 
     def sink_selector(self, stmts):
@@ -981,13 +1125,14 @@ class Normaliser:
         class _IE(ast.NodeTransformer):
             def visit_Call(self_, n):
                 self_.generic_visit(n)
-                if isinstance(n.func, ast.Name) and n.func.id in outer.funcs:
-                    h = outer.single_expr_helper(n.func.id)
+                nm_ = outer._callee_name(n.func)
+                if nm_ is not None and nm_ in outer.funcs and not nm_.startswith('self.'):
+                    h = outer.single_expr_helper(nm_)
                     if h is not None:
                         lam = ast.Lambda(args=h[0], body=copy.deepcopy(h[1]))
                         r = _Beta().visit_Call(ast.Call(func=lam, args=n.args, keywords=n.keywords))
                         if not (isinstance(r, ast.Call) and isinstance(r.func, ast.Lambda)):
-                            outer.inlined.add(n.func.id)
+                            outer.inlined.add(nm_)
                             return r
                 return n
         return _IE().visit(s)
@@ -1035,8 +1180,8 @@ class Normaliser:
             return [g]
         if isinstance(s, ast.For):
             s.body = self.block(s.body)
-            if not self.directional or self.opts.get('continue_to_else'):
-                s.body = self.loop_continue_to_else(s.body)
+            if not self.directional:
+                s.body = _drop_tail(s.body, ast.Continue)
             s.orelse = self.block(s.orelse)
             vals = _range_literal(s.iter)
             if vals is not None and isinstance(s.target, ast.Name):
@@ -1045,7 +1190,12 @@ class Normaliser:
                 items = _literal_items(s.iter, s.target)
             if items is not None and not s.orelse and not _has_exit(s.body):
                 tnames = set().union(*[set(m) for m in items]) if items else set()
-                if all(self.is_new(t) for t in tnames) and not (tnames & _bound_in(ast.Module(body=s.body, type_ignores=[]))):
+                body_bound = _bound_in(ast.Module(body=s.body, type_ignores=[]))
+                item_free = set()
+                for m_ in items:
+                    for v_ in m_.values():
+                        item_free |= names_loaded(v_)
+                if all(self.is_new(t) for t in tnames) and not (tnames & body_bound) and not (item_free & body_bound):
                     out = []
                     for m in items:
                         for b in s.body:
@@ -1055,8 +1205,8 @@ class Normaliser:
             return [s]
         if isinstance(s, ast.While):
             s.body = self.block(s.body)
-            if not self.directional or self.opts.get('continue_to_else'):
-                s.body = self.loop_continue_to_else(s.body)
+            if not self.directional:
+                s.body = _drop_tail(s.body, ast.Continue)
             s.orelse = self.block(s.orelse)
             return [s]
         if isinstance(s, ast.If):
@@ -1147,6 +1297,8 @@ class Normaliser:
         else:
             self.opts['list_names'] = lists & set(self.opts.get('ref_list_names', ()))
         fn.body = self.block(fn.body)
+        if not self.directional:
+            fn.body = _drop_tail(fn.body, ast.Return)
         self.version_straightline(fn)
         if self.directional:
             for _ in range(6):
@@ -1163,7 +1315,9 @@ class Normaliser:
             self.reaug(fn)
             return fn
         fn = _Fold().visit(fn)
+        fn = _NNF().visit(fn)
         self.split_webs(fn)
+        self.split_loop_targets(fn)
         for _ in range(6):
             before = ast.dump(fn)
             self.al = Aliases(fn)
@@ -1174,8 +1328,11 @@ class Normaliser:
             self.drop_dead(fn)
             if ast.dump(fn) == before:
                 break
+        fn = _NNF().visit(fn)
+        fn.body = self.merge_ifs(self.flatten_ifs(fn.body)) if False else fn.body
         self.al = Aliases(fn)
         self.reorder(fn)
+        _finalise(fn)
         return fn
 
     # ---- R7
@@ -1524,6 +1681,44 @@ class Normaliser:
         do_block(fn.body)
         return changed[0]
 
+    # ---- R18b: a name that only ever occurs as the target of for-loops and inside their bodies is renamed per loop
+    def split_loop_targets(self, fn):
+        params = {a.arg for a in fn.args.posonlyargs + fn.args.args + fn.args.kwonlyargs}
+        loops = {}
+        for n in ast.walk(fn):
+            if isinstance(n, ast.For) and isinstance(n.target, ast.Name):
+                loops.setdefault(n.target.id, []).append(n)
+        nested = set()
+        for n in ast.walk(fn):
+            if isinstance(n, (ast.FunctionDef, ast.AsyncFunctionDef, ast.Lambda)) and n is not fn:
+                nested |= {x.id for x in ast.walk(n) if isinstance(x, ast.Name)}
+        total = {}
+        for n in ast.walk(fn):
+            if isinstance(n, ast.Name):
+                total[n.id] = total.get(n.id, 0) + 1
+        k = 0
+        for x, ls in loops.items():
+            if len(ls) < 2 or x in params or x in nested or not self.is_new(x):
+                continue
+            owner = {}
+            ok = True
+            for lp in ls:
+                inside = [n for part in ([lp.target] + lp.body + lp.orelse) for n in ast.walk(part) if isinstance(n, ast.Name) and n.id == x]
+                if any(isinstance(n, ast.Name) and n.id == x for n in ast.walk(lp.iter)):
+                    ok = False
+                for n in inside:
+                    if id(n) in owner:
+                        ok = False          # nested loops over the same name
+                    owner[id(n)] = lp
+            if not ok or len(owner) != total.get(x, 0):
+                continue
+            for lp in ls:
+                k += 1
+                for part in [lp.target] + lp.body + lp.orelse:
+                    for n in ast.walk(part):
+                        if isinstance(n, ast.Name) and n.id == x:
+                            n.id = f'{x}@L{k}'
+
     # ---- R15
     def coalesce(self, fn):
         counts, loads_total = {}, {}
@@ -1535,7 +1730,7 @@ class Normaliser:
                     counts[n.id] = counts.get(n.id, 0) + 1
         params = {a.arg for a in fn.args.posonlyargs + fn.args.args + fn.args.kwonlyargs}
         changed = [False]
-        if not any(isinstance(n, ast.Assign) and len(n.targets) == 1 and isinstance(n.value, ast.Name) and counts.get(n.value.id) == 1
+        if not any(isinstance(n, ast.Assign) and len(n.targets) == 1 and isinstance(n.value, ast.Name) and counts.get(n.value.id, 0) >= 1
                    and n.value.id not in params for n in ast.walk(fn)):
             return False
 
@@ -1552,6 +1747,24 @@ class Normaliser:
                 if isinstance(s_, ast.Assign) and len(s_.targets) == 1 and isinstance(s_.value, ast.Name):
                     t, T = s_.value.id, s_.targets[0]
                     okT = isinstance(T, ast.Name) or (isinstance(T, ast.Subscript) and isinstance(T.value, ast.Name) and is_pure(T.slice))
+                    if isinstance(T, ast.Name) and counts.get(t, 0) > 1 and t not in params and T.id != t and self.is_new(t) and i > 0:
+                        # pure renaming: every occurrence of t lies in this block before the copy, T is not mentioned there
+                        first = next((j for j in range(i) if _name_counts(blk[j]).get(t, 0)), None)
+                        if first is not None and isinstance(blk[first], ast.Assign) and len(blk[first].targets) == 1 \
+                                and isinstance(blk[first].targets[0], ast.Name) and blk[first].targets[0].id == t and not _reads(blk[first].value, t):
+                            occ = sum(_name_counts(st).get(t, 0) for st in blk[first:i])
+                            tot = loads_total.get(t, 0) + counts.get(t, 0)
+                            t_mention = any(_name_counts(st).get(T.id, 0) for st in blk[first:i])
+                            nested_use = any(isinstance(n, (ast.FunctionDef, ast.Lambda)) for st in blk[first:i] for n in ast.walk(st))
+                            if occ + 1 == tot and not t_mention and not nested_use:
+                                for j in range(first, i):
+                                    for n in ast.walk(blk[j]):
+                                        if isinstance(n, ast.Name) and n.id == t:
+                                            n.id = T.id
+                                    _NC.pop(id(blk[j]), None)
+                                del blk[i]
+                                changed[0] = True
+                                continue
                     if okT and counts.get(t) == 1 and t not in params and not (isinstance(T, ast.Name) and T.id == t) and self.is_new(t):
                         # definition of t earlier in this very block
                         d = next((j for j in range(i) if isinstance(blk[j], ast.Assign) and len(blk[j].targets) == 1
@@ -1565,8 +1778,9 @@ class Normaliser:
                             nested_use = any(isinstance(n, (ast.FunctionDef, ast.Lambda)) and any(isinstance(x, ast.Name) and x.id == t for x in ast.walk(n))
                                              for st in between for n in ast.walk(st))
                             tnames = {n.id for n in ast.walk(T) if isinstance(n, ast.Name)}
+                            copy_in = isinstance(T, ast.Name) and isinstance(blk[d].value, ast.Name) and blk[d].value.id == T.id
                             mentions_T = any(_name_counts(st).get(nm, 0) for st in between for nm in tnames) or \
-                                any(isinstance(n, ast.Name) and n.id in tnames for n in ast.walk(blk[d].value))
+                                (not copy_in and any(isinstance(n, ast.Name) and n.id in tnames for n in ast.walk(blk[d].value)))
                             if loads_total.get(t, 0) == uses_between + 1 and not nested_use and not mentions_T:
                                 repl = copy.deepcopy(T)
                                 for n in ast.walk(repl):
@@ -1584,6 +1798,8 @@ class Normaliser:
                                 for j in range(d + 1, i):
                                     blk[j] = _R().visit(blk[j])
                                 del blk[i]
+                                if copy_in:
+                                    del blk[d]          # T = T
                                 changed[0] = True
                                 continue
                 i += 1
@@ -1673,6 +1889,31 @@ def _masked_dump(node):
     if isinstance(node, list):
         return '[' + ' '.join(_masked_dump(x) for x in node) + ']'
     return repr(node)
+
+
+def _drop_tail(stmts, kind):
+    """Remove `continue` (or a bare `return`) in tail position of a block: it is what happens anyway."""
+    if not stmts:
+        return stmts
+    last = stmts[-1]
+    if isinstance(last, kind) and (kind is ast.Continue or last.value is None):
+        return _drop_tail(stmts[:-1], kind)
+    if isinstance(last, ast.If):
+        last.body = _drop_tail(last.body, kind) or [ast.Pass()]
+        last.orelse = _drop_tail(last.orelse, kind)
+    return stmts
+
+
+def _finalise(node):
+    """Every statement list without `pass` (an empty list becomes a single `pass`)."""
+    for n in ast.walk(node):
+        for f in ('body', 'orelse', 'finalbody'):
+            blk = getattr(n, f, None)
+            if isinstance(blk, list) and (not blk or isinstance(blk[0], ast.stmt)):
+                new = [s_ for s_ in blk if not isinstance(s_, ast.Pass)]
+                if not new and f == 'body' and isinstance(n, (ast.If, ast.For, ast.While, ast.With, ast.FunctionDef, ast.Try, ast.ExceptHandler)):
+                    new = [ast.Pass()]
+                setattr(n, f, new)
 
 
 def _reads(e, x):
